@@ -734,22 +734,58 @@ class SegmentWriter(IndexWriter):
                              if not name.startswith("_")])
         self._check_fields(schema, fieldnames)
 
+        # First turn every value into what will be written. Anything that can
+        # reject a value (analysis, number conversion, column encoding) happens
+        # here, before the pool or the per-document writer have seen any part
+        # of the document, so a rejected document leaves nothing behind
+        prepared = []
+        for fieldname in fieldnames:
+            value = fields.get(fieldname)
+            if value is None:
+                continue
+            field = schema[fieldname]
+
+            items = None
+            if field.indexed:
+                # Ask the field to return a list of (text, weight, vbytes)
+                # tuples
+                items = list(field.index(value))
+
+            spellwords = None
+            if field.separate_spelling():
+                spellwords = [utf8encode(word)[0] for word
+                              in field.spellable_words(value)]
+
+            vitems = None
+            vformat = field.vector
+            if vformat:
+                analyzer = field.analyzer
+                # Call the format's word_values method to get posting values
+                vitems = vformat.word_values(value, analyzer, mode="index")
+                # Remove unused frequency field from the tuple
+                vitems = sorted((text, weight, vbytes)
+                                for text, _, weight, vbytes in vitems)
+
+            # Allow a custom value for stored field/column
+            customval = fields.get("_stored_%s" % fieldname, value)
+            column = field.column_type
+            cv = None
+            if column and customval is not None:
+                cv = field.to_column_value(customval)
+
+            prepared.append((fieldname, field, items, spellwords, vitems,
+                             customval, column, cv))
+
         perdocwriter.start_doc(docnum)
         try:
-            for fieldname in fieldnames:
-                value = fields.get(fieldname)
-                if value is None:
-                    continue
-                field = schema[fieldname]
-
+            for (fieldname, field, items, spellwords, vitems, customval,
+                 column, cv) in prepared:
                 length = 0
-                if field.indexed:
+                vbytes = None
+                if items is not None:
                     # TODO: Method for adding progressive field values, ie
                     # setting start_pos/start_char?
                     fieldboost = self._field_boost(fields, fieldname, docboost)
-                    # Ask the field to return a list of (text, weight, vbytes)
-                    # tuples
-                    items = field.index(value)
                     # Only store the length if the field is marked scorable
                     scorable = field.scorable
                     # Add the terms to the pool
@@ -759,34 +795,21 @@ class SegmentWriter(IndexWriter):
                             length += freq
                         add_post((fieldname, tbytes, docnum, weight, vbytes))
 
-                if field.separate_spelling():
+                if spellwords is not None:
                     spellfield = field.spelling_fieldname(fieldname)
-                    for word in field.spellable_words(value):
-                        word = utf8encode(word)[0]
+                    for word in spellwords:
                         # item = (fieldname, tbytes, docnum, weight, vbytes)
                         add_post((spellfield, word, 0, 1, vbytes))
 
-                vformat = field.vector
-                if vformat:
-                    analyzer = field.analyzer
-                    # Call the format's word_values method to get posting values
-                    vitems = vformat.word_values(value, analyzer, mode="index")
-                    # Remove unused frequency field from the tuple
-                    vitems = sorted((text, weight, vbytes)
-                                    for text, _, weight, vbytes in vitems)
+                if vitems is not None:
                     perdocwriter.add_vector_items(fieldname, field, vitems)
-
-                # Allow a custom value for stored field/column
-                customval = fields.get("_stored_%s" % fieldname, value)
 
                 # Add the stored value and length for this field to the per-
                 # document writer
                 sv = customval if field.stored else None
                 perdocwriter.add_field(fieldname, field, sv, length)
 
-                column = field.column_type
                 if column and customval is not None:
-                    cv = field.to_column_value(customval)
                     perdocwriter.add_column_value(fieldname, column, cv)
         except Exception as ex:
             perdocwriter.cancel_doc()
